@@ -62,9 +62,46 @@ pub fn fmt_of(c: u32) -> TileFormat {
 	}
 }
 
+/// ids from here on denote the 1-byte payload `[id - ONE_BYTE_BASE]` (an "empty-ish" tile that is not a
+/// vector tile; only used where nothing has to decode the payload)
+pub const ONE_BYTE_BASE: u64 = 1 << 40;
+
+/// raw size the single-feature tile of this id is padded to exactly: both sides of the 1000-byte
+/// de-duplication threshold of the versatiles writer
+pub fn size_target(id: u64) -> Option<usize> {
+	match id % 41 {
+		1 => Some(999),
+		2 => Some(1000),
+		3 => Some(1001),
+		_ => None,
+	}
+}
+
 /// deterministic padding length of the tile with feature id `id`: most tiles are tiny, some exceed
 /// the 1000-byte de-duplication threshold, a few exceed the 32 KiB chunk gap of the versatiles reader
 pub fn pad_len(id: u64) -> usize {
+	if let Some(t) = size_target(id) {
+		thread_local! { static MEMO: std::cell::RefCell<HashMap<u64, usize>> = std::cell::RefCell::new(HashMap::new()); }
+		if let Some(p) = MEMO.with(|m| m.borrow().get(&id).copied()) {
+			return p;
+		}
+		let mut pad = 900usize;
+		// exact fix-up (the loop above converges in one step unless a varint length changes)
+		let mut l = vt_with_pad(&[(id, pad)], "L").len() as usize;
+		let mut guard = 0;
+		while l != t && guard < 2000 {
+			if l < t {
+				pad += t - l
+			} else {
+				pad -= l - t
+			}
+			l = vt_with_pad(&[(id, pad)], "L").len() as usize;
+			guard += 1;
+		}
+		assert_eq!(l, t, "cannot pad tile {id} to {t} bytes");
+		MEMO.with(|m| m.borrow_mut().insert(id, pad));
+		return pad;
+	}
 	if id % 37 == 0 {
 		40_000
 	} else if id % 5 == 0 {
@@ -74,22 +111,35 @@ pub fn pad_len(id: u64) -> usize {
 	}
 }
 
-/// raw (uncompressed) vector tile: layer `L`, one point feature per id with property `id`
-pub fn make_vt(ids: &[u64], layer: &str) -> Blob {
+fn vt_with_pad(ids: &[(u64, usize)], layer: &str) -> Blob {
 	let mut features = vec![];
-	for id in ids {
+	for (id, n) in ids {
 		let mut f = GeoFeature::new(Geometry::new_point([1, 2]));
 		f.set_property("id".to_string(), *id);
-		let n = pad_len(*id);
-		if n > 0 {
+		if *n > 0 {
 			let mut r = Rng::new(*id);
-			let pad: String = (0..n).map(|_| (b'a' + r.below(26) as u8) as char).collect();
+			let pad: String = (0..*n).map(|_| (b'a' + r.below(26) as u8) as char).collect();
 			f.set_property("pad".to_string(), pad);
 		}
 		features.push(f);
 	}
 	let l = VectorTileLayer::from_features(layer.to_string(), features, 4096, 1).unwrap();
 	VectorTile::new(vec![l]).to_blob().unwrap()
+}
+
+/// raw (uncompressed) vector tile: layer `L`, one point feature per id with property `id`
+pub fn make_vt(ids: &[u64], layer: &str) -> Blob {
+	let v: Vec<(u64, usize)> = ids.iter().map(|id| (*id, pad_len(*id))).collect();
+	vt_with_pad(&v, layer)
+}
+
+/// the raw payload of a stored tile
+pub fn make_blob(id: u64) -> Blob {
+	if id >= ONE_BYTE_BASE {
+		Blob::from(vec![(id - ONE_BYTE_BASE) as u8])
+	} else {
+		make_vt(&[id], "L")
+	}
 }
 
 /// identify a delivered blob: decodable under the declared compression, feature ids of all layers
@@ -114,6 +164,9 @@ impl Ident {
 fn ident_raw(blob: &Blob, comp: TileCompression) -> Option<String> {
 	let r = catch(|| -> Option<String> {
 		let raw = decompress(blob.clone(), &comp).ok()?;
+		if raw.len() == 1 {
+			return Some((ONE_BYTE_BASE + raw.as_slice()[0] as u64).to_string());
+		}
 		let vt = VectorTile::from_blob(&raw).ok()?;
 		let mut layers: Vec<&VectorTileLayer> = vt.layers.iter().collect();
 		layers.sort_by(|a, b| a.name.cmp(&b.name));
@@ -218,7 +271,7 @@ impl World {
 			let tiles: Vec<(TileCoord3, Blob)> = s
 				.tiles
 				.iter()
-				.map(|((z, x, y), id)| (TileCoord3::new(*x, *y, *z).unwrap(), compress(make_vt(&[*id], "L"), &comp).unwrap()))
+				.map(|((z, x, y), id)| (TileCoord3::new(*x, *y, *z).unwrap(), compress(make_blob(*id), &comp).unwrap()))
 				.collect();
 			let mem = MemSource::new(&format!("s{i}"), fmt_of(s.fmt), comp, tiles);
 			let mut path = None;
@@ -492,6 +545,17 @@ pub fn build_op(rt: &tokio::runtime::Runtime, w: &World, rpn: &str) -> Result<Re
 pub fn run_line(rt: &tokio::runtime::Runtime, out: &mut Out, id: &mut Ident, scratch: &Path, line: &str) {
 	let t: Vec<&str> = line.split(' ').collect();
 	if t.len() < 4 {
+		return;
+	}
+	if t[0] == "C02v" || t[0] == "C02m" {
+		// `<stream> <op> <env> <index (recomputed)> <args>`
+		if t.len() < 5 {
+			return;
+		}
+		let specs = parse_env(t[2]);
+		let w = World::build(rt, scratch, &specs);
+		reader_line(rt, out, id, &w, t[0], t[1], t[4]);
+		w.cleanup();
 		return;
 	}
 	let specs = parse_env(t[3]);
@@ -796,4 +860,247 @@ pub fn levels_of(specs: &[SrcSpec]) -> BTreeMap<u8, Vec<(u32, u32)>> {
 		}
 	}
 	m
+}
+
+// ---------------------------------------------------------------------------------------------
+// payload identity patterns
+
+fn next_id(next: &mut u64) -> u64 {
+	*next += 1;
+	*next
+}
+fn next_id_with_target(next: &mut u64) -> u64 {
+	loop {
+		*next += 1;
+		if size_target(*next).is_some() {
+			return *next;
+		}
+	}
+}
+
+/// Assign payload ids (= byte-identical payloads for equal ids) to coordinates.
+/// style 0: mostly distinct, every 7th a copy of an earlier tile (scattered copies, also across
+///          blocks and levels); 1: all tiles identical (ocean); 2: runs of 2-6 adjacent copies;
+/// 3: three payloads scattered over all coordinates; 4: copies of payloads sized 999/1000/1001 bytes
+/// (both sides of the versatiles writer's de-duplication threshold), adjacent and scattered;
+/// 5 (only where nothing decodes the payload): 1-byte payloads, many copies.
+pub fn assign_ids_style(rng: &mut Rng, coords: &[Key], next: &mut u64, style: u64) -> BTreeMap<Key, u64> {
+	let mut tiles = BTreeMap::new();
+	let mut sorted: Vec<Key> = coords.to_vec();
+	sorted.sort();
+	match style {
+		1 => {
+			let idv = if rng.chance(1, 2) { next_id(next) } else { next_id_with_target(next) };
+			for k in sorted {
+				tiles.insert(k, idv);
+			}
+		}
+		2 => {
+			let mut i = 0;
+			while i < sorted.len() {
+				let run = rng.range(1, 6) as usize;
+				let idv = if rng.chance(1, 4) { next_id_with_target(next) } else { next_id(next) };
+				for k in sorted.iter().skip(i).take(run) {
+					tiles.insert(*k, idv);
+				}
+				i += run;
+			}
+		}
+		3 => {
+			let pool = [next_id(next), next_id_with_target(next), next_id(next)];
+			for k in sorted {
+				tiles.insert(k, *rng.pick(&pool));
+			}
+		}
+		4 => {
+			let pool: Vec<u64> = (0..6).map(|_| next_id_with_target(next)).collect();
+			let mut last = pool[0];
+			for k in sorted {
+				if !rng.chance(1, 2) {
+					last = *rng.pick(&pool);
+				}
+				tiles.insert(k, last);
+			}
+		}
+		5 => {
+			let pool = [ONE_BYTE_BASE, ONE_BYTE_BASE + 1, ONE_BYTE_BASE + 255, next_id(next)];
+			for k in sorted {
+				tiles.insert(k, *rng.pick(&pool));
+			}
+		}
+		_ => {
+			let mut used: Vec<u64> = vec![];
+			for k in coords {
+				let idv = if !used.is_empty() && rng.chance(1, 7) { *rng.pick(&used) } else { next_id(next) };
+				used.push(idv);
+				tiles.insert(*k, idv);
+			}
+		}
+	}
+	tiles
+}
+
+/// style for sources whose payloads must be decodable vector tiles (pipelines)
+pub fn pick_style_vt(rng: &mut Rng) -> u64 {
+	match rng.below(10) {
+		0..=4 => 0,
+		5 => 1,
+		6 => 2,
+		7 => 3,
+		_ => 4,
+	}
+}
+
+pub fn count_dups(out: &mut Out, tiles: &BTreeMap<Key, u64>) {
+	let mut by_id: HashMap<u64, Vec<Key>> = HashMap::new();
+	for (k, v) in tiles {
+		by_id.entry(*v).or_default().push(*k);
+	}
+	let mut same_block = 0u64;
+	let mut cross_block = 0u64;
+	for (_, ks) in by_id.iter() {
+		if ks.len() < 2 {
+			continue;
+		}
+		let b0 = (ks[0].0, ks[0].1 >> 8, ks[0].2 >> 8);
+		if ks.iter().all(|k| (k.0, k.1 >> 8, k.2 >> 8) == b0) {
+			same_block += ks.len() as u64 - 1
+		} else {
+			cross_block += ks.len() as u64 - 1
+		}
+	}
+	out.count_n("tiles_total", tiles.len() as u64);
+	out.count_n("duplicate_payload_copies_within_one_block", same_block);
+	out.count_n("duplicate_payload_copies_across_blocks_or_levels", cross_block);
+	out.count_n("payloads_sized_999_1000_1001", tiles.values().filter(|v| **v < ONE_BYTE_BASE && size_target(**v).is_some()).count() as u64);
+	out.count_n("payloads_1_byte", tiles.values().filter(|v| **v >= ONE_BYTE_BASE).count() as u64);
+}
+
+// ---------------------------------------------------------------------------------------------
+// reader models fed with the real container's index (streams C02v / C02m)
+
+/// `stream` = "C02v" | "C02m", `op` = "S" (args: boxes) | "G" (args: coordinates); source 0 of the world
+pub fn reader_line(rt: &tokio::runtime::Runtime, out: &mut Out, id: &mut Ident, w: &World, stream: &str, op: &str, args: &str) {
+	use crate::indep_formats::{brotli_d, parse_versatiles};
+	if !w.usable() || w.paths[0].is_none() {
+		return;
+	}
+	let path = w.paths[0].clone().unwrap();
+	let env = w.env_string();
+	let rd = match catch(|| rt.block_on(async { w.reader(0).await })) {
+		Ok(Ok(r)) => r,
+		_ => {
+			out.count("reader_open_failed");
+			return;
+		}
+	};
+	let comp = rd.get_parameters().tile_compression;
+	// what identifies a delivered blob, per coordinate
+	let mut ident_of: HashMap<(u32, u32, u8), String> = HashMap::new();
+	let mut file: Vec<u8> = vec![];
+	let index_s: String;
+	let mut shared = 0u64;
+	if stream == "C02v" {
+		file = std::fs::read(&path).unwrap();
+		let p = match parse_versatiles(&file) {
+			Ok(p) => p,
+			Err(e) => {
+				out.notes.push(format!("independent versatiles parser rejected the written file: {e}"));
+				return;
+			}
+		};
+		let mut blocks = vec![];
+		for r in p.records.iter() {
+			let (x0, y0, x1, y1) = r.block.global();
+			let io = (r.offset + r.blobs_len) as usize;
+			let raw = match brotli_d(&file[io..io + r.index_len as usize]) {
+				Ok(v) => v,
+				Err(_) => return,
+			};
+			let mut es = vec![];
+			let mut seen: HashMap<(u64, u64), ()> = HashMap::new();
+			for (i, e) in raw.chunks(12).enumerate() {
+				let off = u64::from_be_bytes(e[0..8].try_into().unwrap()) + r.offset;
+				let len = u32::from_be_bytes(e[8..12].try_into().unwrap()) as u64;
+				es.push(format!("{off}:{len}"));
+				if len > 0 {
+					if seen.insert((off, len), ()).is_some() {
+						shared += 1;
+					}
+					let w_ = (x1 - x0 + 1) as usize;
+					let (x, y) = (x0 + (i % w_) as u32, y0 + (i / w_) as u32);
+					ident_of.insert((x, y, r.block.z), format!("{off},{len}"));
+				}
+			}
+			blocks.push(format!("{},{},{},{x0},{y0},{x1},{y1};{}", r.block.bx, r.block.by, r.block.z, if es.is_empty() { "-".to_string() } else { es.join("_") }));
+		}
+		index_s = if blocks.is_empty() { "-".to_string() } else { blocks.join("!") };
+		out.count_n("versatiles_index_entries_sharing_a_range", shared);
+	} else {
+		let conn = match rusqlite::Connection::open_with_flags(&path, rusqlite::OpenFlags::SQLITE_OPEN_READ_ONLY) {
+			Ok(c) => c,
+			Err(_) => return,
+		};
+		let mut rows = vec![];
+		{
+			let mut st = conn.prepare("SELECT zoom_level, tile_column, tile_row, tile_data FROM tiles").unwrap();
+			let it = st.query_map([], |r| Ok((r.get::<_, u32>(0)?, r.get::<_, u32>(1)?, r.get::<_, u32>(2)?, r.get::<_, Vec<u8>>(3)?))).unwrap();
+			for r in it.flatten() {
+				let s = id.of(&Blob::from(r.3), comp);
+				let num = s.split('@').next().unwrap().to_string();
+				rows.push(format!("{},{},{},{}", r.0, r.1, r.2, num));
+			}
+		}
+		index_s = if rows.is_empty() { "-".to_string() } else { rows.join("_") };
+	}
+	let mut show = |id: &mut Ident, c: &TileCoord3, b: &Blob| -> String {
+		if stream == "C02v" {
+			match ident_of.get(&(c.x, c.y, c.z)) {
+				Some(s) => {
+					let (o, l) = s.split_once(',').unwrap();
+					let (o, l): (usize, usize) = (o.parse().unwrap(), l.parse().unwrap());
+					if o + l <= file.len() && &file[o..o + l] == b.as_slice() {
+						s.clone()
+					} else {
+						"?".to_string()
+					}
+				}
+				None => "?".to_string(),
+			}
+		} else {
+			id.of(b, comp).split('@').next().unwrap().to_string()
+		}
+	};
+	let line = format!("{stream} {op} {env} {index_s} {args}");
+	let src = Real::R(rd);
+	let mut res = vec![];
+	if op == "S" {
+		let mut nt = false;
+		for bs in args.split(';') {
+			let b = parse_box(bs);
+			nt |= nontrivial_box(&b, &src.params().bbox_pyramid);
+			match catch(|| rt.block_on(async { src.stream(b.clone()).await })) {
+				Ok(mut v) => {
+					sort_tiles(&mut v);
+					res.push(if v.is_empty() { "-".to_string() } else { v.iter().map(|(c, b)| format!("{},{},{},{}", c.x, c.y, c.z, show(id, c, b))).collect::<Vec<_>>().join("_") });
+				}
+				Err(_) => res.push("panic".to_string()),
+			}
+		}
+		out.case(&line, &res.join("|"), nt || shared > 0);
+	} else {
+		for cs in args.split(';') {
+			let v: Vec<u32> = cs.split(',').map(|x| x.parse().unwrap()).collect();
+			let c = TileCoord3::new(v[0], v[1], v[2] as u8).unwrap();
+			res.push(match catch(|| rt.block_on(async { src.lookup(&c).await })) {
+				Ok(Ok(Some(b))) => show(id, &c, &b),
+				Ok(Ok(None)) => "-".to_string(),
+				Ok(Err(_)) => "err".to_string(),
+				Err(_) => "panic".to_string(),
+			});
+		}
+		let hits = res.iter().filter(|r| r.as_str() != "-").count();
+		out.case(&line, &res.join("|"), hits > 0 && hits < res.len());
+	}
+	out.count(&format!("reader_model_line_{stream}_{op}"));
 }
